@@ -11,9 +11,9 @@ RULE = ('three streams. bin (55%): two conforming files (1-3 dims, <= 12 cells, 
         'masked-typed with 0..all cells masked, optional coordinate variables, sometimes a variable missing on the right), every '
         'operator + - * / // ** % < <= > >= == !=, operands drawn from small integers/quarters, zeros, +-inf, nan and (for + - *) '
         '+-1e308. mask (30%): every subset of {where (own shape / with dims= as tuple or list / mis-shaped), greater, greater_equal, '
-        'less, less_equal, values, equal, invalid}, thresholds at and near data values (incl. 1e-6 / 1e-4 relative offsets for values=), '
+        'less, less_equal, values, equal, invalid}, the condition also as a variable carrying .dimensions and through the mask= alias, thresholds at and near data values (incl. 1e-6 / 1e-4 relative offsets for values=), '
         'masked and unmasked int/float variables incl. inf/nan, coordinate variables with coords=False/True. eval (15%): 1-3 assignment '
-        'statements with random expression trees (names, constants, unary minus, + - * /, depth <= 3) over plain / masked-typed int and '
+        'statements with random expression trees (names, constants, unary minus, + - * /, np.ma.masked_less/greater calls, depth <= 3) over plain / masked-typed int and '
         'float arrays incl. zeros, inf, nan, re-assignment of existing variables, copyall True/False, optional coordinate variable: '
         'evaluated in Coq (Model/EvalExpr.v) and by the Python oracle; other forms (np.sqrt, comparisons, **, %, //, masked_less) '
         'Python oracle only. F: Coq model vs library '
@@ -174,14 +174,21 @@ def _gen_mask(rng, tier):
             for s in shape:
                 n *= s
         where = dict(shape=shape, bits=[1 if rng.random() < 0.4 else 0 for _ in range(n)])
+        if dims_arg is None and rng.random() < 0.35:
+            # the condition is itself a variable: mask() takes maskdims from where.dimensions
+            where['vardims'] = list(tv['dims'])
+        if rng.random() < 0.3:
+            where['alias'] = True             # passed as mask= (alias of where=)
     k = 'mask' + ''.join(sorted(x[0] + x[-1] for x in preds)) + ('-inv' if invalid else '')
     if where:
         k = 'mask-where' + ('' if dims_arg is None else ('-tuple' if dims_arg['tuple'] else '-list'))
+        k += '-var' if where.get('vardims') else ''
+        k += '-alias' if where.get('alias') else ''
     return dict(kind=k, what='mask', dims=dims, vars=vs, coords=coords, with_coords=rng.random() < 0.25,
                 where=where, dims_arg=dims_arg, preds=preds, invalid=invalid)
 
 
-EXPRS = ['C = A + B', 'C = A * 2 - B', 'C = A / B', 'C = np.sqrt(A)', 'C = A > B', 'C = A + 1; D = B * C', 'A = A * 2',
+EXPRS = ['C = np.ma.masked_less(A, 0) + B', 'C = np.ma.masked_greater(B, 1) * A', 'C = np.ma.masked_less(A, 0)', 'C = A + B', 'C = A * 2 - B', 'C = A / B', 'C = np.sqrt(A)', 'C = A > B', 'C = A + 1; D = B * C', 'A = A * 2',
          'C = np.ma.masked_less(A, 0) + B', 'C = A ** 2 % 3', 'C = -A // 2']
 
 
@@ -209,6 +216,9 @@ def _gen_ast(rng, names, depth, clean=()):
     r = rng.random()
     if r < 0.12:
         return ['neg', _gen_ast(rng, names, depth - 1, clean)]
+    if r < 0.30:
+        # numpy.ma call inside the expression: the value is a plain numpy masked array, not a file variable
+        return [rng.choice(['mlt', 'mgt']), _gen_ast(rng, names, depth - 1, clean), rng.choice(['0', '1', '-1', '1/2', '2'])]
     op = rng.choice(EOPS)
     a = _gen_ast(rng, names, depth - 1, clean)
     if op == '/':
@@ -227,6 +237,8 @@ def _ast_str(t):
         return '(%s)' % (repr(float(fr)) if fr.denominator != 1 else str(fr.numerator))
     if t[0] == 'neg':
         return '(-%s)' % _ast_str(t[1])
+    if t[0] in ('mlt', 'mgt'):
+        return 'np.ma.masked_%s(%s, %s)' % ('less' if t[0] == 'mlt' else 'greater', _ast_str(t[1]), _ast_str(['c', t[2]]))
     return '(%s %s %s)' % (_ast_str(t[1]), t[0], _ast_str(t[2]))
 
 
@@ -327,7 +339,11 @@ def impl(case):
             if case['invalid']:
                 kw['invalid'] = True
             if case['where'] is not None:
-                kw['where'] = np.array(case['where']['bits'], dtype=bool).reshape(case['where']['shape'])
+                w = np.array(case['where']['bits'], dtype=bool).reshape(case['where']['shape'])
+                if case['where'].get('vardims'):
+                    from PseudoNetCDF.core._variables import PseudoNetCDFVariable
+                    w = PseudoNetCDFVariable.from_array('cond', w, dims=tuple(case['where']['vardims']))
+                kw['mask' if case['where'].get('alias') else 'where'] = w
             if case['dims_arg'] is not None:
                 kw['dims'] = tuple(case['dims_arg']['dims']) if case['dims_arg']['tuple'] else list(case['dims_arg']['dims'])
             out = f.mask(coords=case['with_coords'], **kw)
@@ -406,6 +422,9 @@ def _ast_term(t):
         return '(EConst (Qmake %s %d))' % (C.zc(fr.numerator), fr.denominator)
     if t[0] == 'neg':
         return '(ENeg %s)' % _ast_term(t[1])
+    if t[0] in ('mlt', 'mgt'):
+        fr = Fraction(t[2])
+        return '(EMaskCmp %s %s (Qmake %s %d))' % (C.cbool(t[0] == 'mlt'), _ast_term(t[1]), C.zc(fr.numerator), fr.denominator)
     return '(EBin %s %s %s)' % ({'+': 'OAdd', '-': 'OSub', '*': 'OMul', '/': 'ODiv'}[t[0]], _ast_term(t[1]), _ast_term(t[2]))
 
 
@@ -415,7 +434,7 @@ def _eval_term(case, obs):
     vs = []
     for v in case['vars']:
         cells = '; '.join('(MC %s %s)' % (_rv(_dec(x)), C.cbool(v['mask'] is not None and v['mask'][i])) for i, x in enumerate(v['data']))
-        vs.append('(%d%%nat, EA %s [%s])' % (_vid(v['name']), C.cbool(v['mask'] is not None), cells))
+        vs.append('(%d%%nat, EA %s [%s])' % (_vid(v['name']), 'KPncMa' if v['mask'] is not None else 'KPlain', cells))
     if 'raises' in obs:
         o = 'None'
     else:
@@ -457,7 +476,7 @@ def coq_term(case, obs):
     if case['where'] is None:
         w = 'None'
     else:
-        da = case['dims_arg']
+        da = case['dims_arg'] or (dict(dims=case['where']['vardims']) if case['where'].get('vardims') else None)
         w = '(Some (WA %s [%s] %s))' % (C.natlist(case['where']['shape']), '; '.join(C.cbool(b) for b in case['where']['bits']),
                                         'None' if da is None else '(Some %s)' % C.natlist([_vid(d) for d in da['dims']]))
     vs = []
@@ -518,6 +537,8 @@ def py_check(case, obs):
             dl = dict(case['dims'])
             p = {k: _dec(v) for k, v in case['preds'].items()}
             w, da = case['where'], case['dims_arg']
+            if w is not None and da is None and w.get('vardims'):
+                da = dict(dims=w['vardims'])
             exp = []
             expect_index_error = False
             for v in case['vars']:
@@ -559,6 +580,8 @@ def py_check(case, obs):
             else:
                 _cmp_vars(exp, obs, why, 'mask')
         else:
+            if case.get('stmts') is None and 'np.ma.' in case['expr'] and not case['expr'].startswith('C = np.ma.'):
+                region = 1
             if 'raises' in obs:
                 return dict(s_ok=False, f_ok=False, region=0, why='eval raised %s: %s' % (obs['raises'], obs.get('msg')))
             dl = dict(case['dims'])
@@ -628,6 +651,7 @@ LEVEL_TEXT = ('Theorems (Props/C06.v, all closed under the global context) over 
               'minus and + - * / create variables equal to the sequential cellwise evaluation on the file\'s arrays, other variables are '
               'identical copies of the base file (C06_eval_creates_expr, C06_eval_single, C06_eval_copyall_untouched, '
               'C06_eval_binop_cellwise, C06_eval_cell_mask; Model/EvalExpr.v); other expression forms: Python oracle only. '
+              'Tie T: operator table, pncbo statements and the mask() chain regenerated into Gen/C06Src.v every run (C06_source_is_model). '
               'Tie H: library vs model on every generated bin/mask case and on the modelled eval cases.')
 LEVEL_NOTE = ('Trusted: Coq kernel + vm_compute; the harness; numpy elementwise results are model inputs (the model decides mask placement); '
               'numpy.ma.masked_* semantics as modelled. eval(): IEEE extended-real arithmetic with exact finite part, no signed zero (divisors '
